@@ -17,6 +17,13 @@ func Unmarshal(data []byte, value interface{}) error {
 func (p *Plenc) Marshal(data []byte, value interface{}) ([]byte, error) {
 	typ := reflect.TypeOf(value)
 	ptr := unpackEFace(value).data
+	if k := typ.Kind(); (k == reflect.Struct || k == reflect.Array) && isDirectIface(typ) {
+		// The interface holds this value directly rather than a pointer to it, so
+		// we need to make an addressable copy to get a pointer to the value.
+		v := reflect.New(typ)
+		v.Elem().Set(reflect.ValueOf(value))
+		ptr = v.UnsafePointer()
+	}
 	if typ.Kind() == reflect.Ptr {
 		typ = typ.Elem()
 
@@ -40,6 +47,22 @@ func (p *Plenc) Marshal(data []byte, value interface{}) ([]byte, error) {
 	}
 
 	return c.Append(data, ptr, nil), nil
+}
+
+// isDirectIface reports whether values of type t are stored directly in an
+// interface's data word, rather than the data word pointing to the value. This
+// is the case for pointer-shaped types, including structs with a single
+// pointer-shaped field and arrays of one pointer-shaped element.
+func isDirectIface(t reflect.Type) bool {
+	switch t.Kind() {
+	case reflect.Ptr, reflect.Map, reflect.Chan, reflect.Func, reflect.UnsafePointer:
+		return true
+	case reflect.Struct:
+		return t.NumField() == 1 && isDirectIface(t.Field(0).Type)
+	case reflect.Array:
+		return t.Len() == 1 && isDirectIface(t.Elem())
+	}
+	return false
 }
 
 func (p *Plenc) Unmarshal(data []byte, value interface{}) error {
